@@ -24,8 +24,8 @@ ASSUMPTIONS = [
     "explicit [H] inside multi-atom tokens is excluded (the library counts it as an atom, RDKit merges it)",
 ]
 BOUNDS = {
-    "quick": "tokens <= 4 atoms, <= 3 descriptors, all shapes/placements, ring templates with <= 2 insertions; 2.3k stochastic objects / molecules / systems x 2 formats",
-    "thorough": "tokens <= 6 atoms, <= 3 descriptors, bond variants, every float syntax; all formats",
+    "quick": "tokens <= 5 atoms, <= 3 descriptors, all shapes/placements, ring templates with <= 2 insertions; 2.3k stochastic objects / molecules / systems x 2 formats",
+    "thorough": "tokens <= 7 atoms, <= 3 descriptors, bond variants, every float syntax; all formats",
 }
 CASE_TIMEOUT = {"quick": 300, "thorough": 3000}
 BT = {1.0: 1, 2.0: 2, 3.0: 3, 1.5: 7}  # rdkit BondType values SINGLE DOUBLE TRIPLE ONEANDAHALF
@@ -33,12 +33,12 @@ BT = {1.0: 1, 2.0: 2, 3.0: 3, 1.5: 7}  # rdkit BondType values SINGLE DOUBLE TRI
 
 def token_universe(tier, seed):
     if tier == "quick":
-        toks = list(G.token_strings(4, 3, 1, seed=seed, bond_variants=True))
+        toks = list(G.token_strings(5, 3, 1, seed=seed, bond_variants=True))
         toks += list(G.ring_token_strings(1, 2, seed=seed))
-        toks += list(G.token_strings(3, 2, 2, seed=seed + 7, bond_variants=False))
+        toks += list(G.token_strings(4, 3, 2, seed=seed + 7, bond_variants=False))
         toks += HYDROGEN_TOKENS
     else:
-        toks = list(G.token_strings(6, 3, 2, seed=seed, bond_variants=True))
+        toks = list(G.token_strings(7, 3, 2, seed=seed, bond_variants=True))
         toks += list(G.ring_token_strings(2, 3, seed=seed))
         toks += list(G.token_strings(4, 3, 1, seed=seed + 11, bond_variants=True))
         toks += HYDROGEN_TOKENS
